@@ -200,6 +200,7 @@ def point_dipole(ck, qr, numpy, const):
     # the constant in Debye/Angstrom -> internal (1/fs) units from SI constants
     Debye = 1.0e-21 / const.c                 # C m
     pref_SI = 1.0 / (4 * math.pi * const.epsilon_0)
+    shared_params = {}
     for h in range(ck.n(20, 300)):
         kind = rng.choice(["float", "int", "whole"])
         d1 = [rng.randint(-4, 4) / 2.0 for _ in range(3)]; d2 = [rng.randint(-4, 4) / 2.0 for _ in range(3)]
@@ -219,8 +220,18 @@ def point_dipole(ck, qr, numpy, const):
         m1.position = numpy.array(r1) if kind != "int" else numpy.array(r1, dtype=int)
         m2.position = numpy.array(r2) if kind != "int" else numpy.array(r2, dtype=int)
         agg = Aggregate([m1, m2])
+        # both entry points; the parameter dictionaries are the caller's and are reused for later aggregates (as a script would)
+        entry = ("set_coupling_by_dipole_dipole", "calculate_resonance_coupling", "calculate_resonance_coupling")[h % 3]
+        inp["entry_point"] = entry
         try:
-            agg.set_coupling_by_dipole_dipole(epsr=epsr)
+            if entry == "set_coupling_by_dipole_dipole":
+                agg.set_coupling_by_dipole_dipole(epsr=epsr)
+            elif epsr == 1.0 and h % 2 == 0:
+                agg.calculate_resonance_coupling()
+            else:
+                pd = shared_params.setdefault(epsr, {"epsr": epsr})
+                agg.calculate_resonance_coupling(method="dipole-dipole", params=pd)
+                inp["params_dictionary_after_call"] = repr(pd)   # not judged by itself: only the couplings of later calls are
             agg.build()
             got = float(agg.HH[1, 2])
         except Exception as e:
